@@ -98,7 +98,9 @@ func c14Case(v c14Variant, seq []int, sched Sched) *Case {
 			st = "Stopped"
 		}
 		ops = append(ops, op)
-		if cancelled {
+		if cancelled || op.Op == "add" {
+			// after a submission the event loop is given the time to consume its signal: whatever
+			// call follows (Resume, TunePool, Restart ...) has to wake it up again by itself
 			ops = append(ops, Op{Op: "settle"})
 		}
 	}
